@@ -35,6 +35,7 @@ CONSTANTS Funcs,          \* function names
           Rate,           \* sampling rate (0 = unset)
           AllowThrow,     \* extended alphabet: throw() into a suspended generator
           AllowDrop,      \* extended alphabet: a suspended generator is abandoned (close() / garbage collection)
+          AllowDelegate,  \* extended alphabet: `yield from <generator>` / `await <coroutine>` of another traced frame
           Dev_ReturnConst,   \* handle_return does not recognise RETURN_CONST: return type stays absent
           Dev_AwaitIsYield,  \* a coroutine suspending on an await is recorded as a yield of what the awaitable yielded
           Dev_ThrowIsYield,  \* an exception thrown into a suspended generator is recorded as `yield None`; never logged; residue
@@ -43,7 +44,9 @@ CONSTANTS Funcs,          \* function names
 ABSENT == "ABSENT"
 NoneTok == "none"
 
-VARIABLES fr,       \* Seq of [f, st, entry, cur, ys]    st \in {"new","run","susp","done"}
+VARIABLES fr,       \* Seq of [f, st, entry, cur, ys, dg, dc]    st \in {"new","run","susp","done","dropped"}
+                    \* dg = the frame this one delegates to (`yield from` / `await`), 0 if none; dc = does the
+                    \* delegating frame catch an exception leaving the delegate
           stack,    \* Seq of [id, catch]  catch = the caller/resumer catches an exception leaving this frame
           truth,    \* Seq of completed calls of wanted functions [id, f, arg, ys, ret]
           traces,   \* tracer: set of [id, f, arg, ys, ret] in flight  (CallTracer.traces, keyed by frame)
@@ -97,6 +100,35 @@ AddTruth(tr, id, ret) == IF Wanted[fr[id].f] THEN Append(tr, Completed(id, ret))
 CanAct == IF Running THEN fr[Top].st = "run" ELSE TRUE
 
 (***************************************************************************)
+(* Delegation chains.  A generator running `yield from g` (a coroutine     *)
+(* running `await c`) is suspended and resumed TOGETHER with g: CPython    *)
+(* delivers one return event per frame of the chain, innermost first, when *)
+(* the innermost frame yields / suspends, and one call event per frame,    *)
+(* outermost first, when the outermost frame is resumed.  A value yielded  *)
+(* by the delegate is a value yielded by every frame of the chain.         *)
+(***************************************************************************)
+Live(id) == fr[id].st \in {"run", "susp"}
+LiveChild(p) == IF fr[p].dg # 0 /\ Live(fr[p].dg) THEN fr[p].dg ELSE 0
+IsLiveChild(id) == \E p \in 1..Len(fr) : Live(p) /\ fr[p].dg = id /\ Live(id)
+InChain(id) == LiveChild(id) # 0 \/ IsLiveChild(id)
+\* how many entries at the top of the stack form one delegation chain (>= 1 when running)
+RECURSIVE ChainLen(_)
+ChainLen(n) == IF n >= 2 /\ fr[stack[n - 1].id].dg = stack[n].id THEN 1 + ChainLen(n - 1) ELSE 1
+\* ids of the chain hanging below a suspended root, outermost first
+RECURSIVE ChainOf(_)
+ChainOf(id) == IF LiveChild(id) = 0 THEN <<id>> ELSE <<id>> \o ChainOf(LiveChild(id))
+\* the tracer callback applied to a sequence of frames
+RECURSIVE OnReturnAll(_, _, _, _)
+OnReturnAll(st, ids, op, v) == IF Len(ids) = 0 THEN st
+                               ELSE OnReturnAll(OnReturn(st, ids[1], fr[ids[1]].f, op, v), Tail(ids), op, v)
+RECURSIVE OnCallAll(_, _, _)
+OnCallAll(st, ids, draw) == IF Len(ids) = 0 THEN st
+                            ELSE OnCallAll(OnCall(st, ids[1], fr[ids[1]].f, fr[ids[1]].cur, fr[ids[1]].st = "new", draw),
+                                           Tail(ids), draw)
+\* the chain at the top of the stack, innermost first
+TopChain == LET c == ChainLen(Len(stack)) IN [j \in 1..c |-> stack[Len(stack) - j + 1].id]
+
+(***************************************************************************)
 (* Program actions                                                         *)
 (***************************************************************************)
 \* the running frame (or the driver) calls f(v); for a generator / coroutine function this only
@@ -105,41 +137,59 @@ Call(f, v, catch, draw) ==
   /\ CanAct /\ Len(fr) < MaxFrames
   /\ LET id == Len(fr) + 1 IN
      IF Kind[f] = "plain"
-     THEN /\ fr' = Append(fr, [f |-> f, st |-> "run", entry |-> v, cur |-> v, ys |-> {}])
+     THEN /\ fr' = Append(fr, [f |-> f, st |-> "run", entry |-> v, cur |-> v, ys |-> {}, dg |-> 0, dc |-> TRUE])
           /\ stack' = Append(stack, [id |-> id, catch |-> catch])
           /\ Commit(OnCall(Cur, id, f, v, TRUE, draw))
-          /\ hist' = Append(hist, [op |-> "Call", f |-> f, id |-> id, v |-> v, catch |-> catch, draw |-> draw])
+          /\ hist' = Append(hist, [op |-> "Call", f |-> f, id |-> id, v |-> v, catch |-> catch, draw |-> draw, ch |-> <<id>>])
      ELSE /\ draw = 0 /\ catch
-          /\ fr' = Append(fr, [f |-> f, st |-> "new", entry |-> v, cur |-> v, ys |-> {}])
+          /\ fr' = Append(fr, [f |-> f, st |-> "new", entry |-> v, cur |-> v, ys |-> {}, dg |-> 0, dc |-> TRUE])
           /\ UNCHANGED <<stack, traces, skipped, logged>>
-          /\ hist' = Append(hist, [op |-> "Create", f |-> f, id |-> id, v |-> v, catch |-> TRUE, draw |-> 0])
+          /\ hist' = Append(hist, [op |-> "Create", f |-> f, id |-> id, v |-> v, catch |-> TRUE, draw |-> 0, ch |-> <<>>])
   /\ UNCHANGED truth
 
-\* next(g) / coro.send(None) on a created or suspended frame: a call event every time
+\* next(g) / coro.send(None) on a created or suspended frame: a call event every time - and one for every
+\* frame of the delegation chain hanging below it, outermost first (all with the action's draw)
 Resume(id, catch, draw) ==
   /\ CanAct /\ id \in 1..Len(fr) /\ fr[id].st \in {"new", "susp"}
+  /\ ~IsLiveChild(id)                              \* a delegate is driven through its delegator
   /\ (Kind[fr[id].f] = "coro" => ~Running)        \* coroutines are driven by the driver
-  /\ fr' = [fr EXCEPT ![id].st = "run"]
-  /\ stack' = Append(stack, [id |-> id, catch |-> catch])
-  /\ Commit(OnCall(Cur, id, fr[id].f, fr[id].cur, fr[id].st = "new", draw))
-  /\ hist' = Append(hist, [op |-> "Resume", f |-> fr[id].f, id |-> id, v |-> NoneTok, catch |-> catch, draw |-> draw])
+  /\ LET ch == ChainOf(id) IN
+     /\ fr' = [j \in 1..Len(fr) |-> IF j \in ToSet(ch) THEN [fr[j] EXCEPT !.st = "run"] ELSE fr[j]]
+     /\ stack' = stack \o [j \in 1..Len(ch) |-> [id |-> ch[j], catch |-> IF j = 1 THEN catch ELSE fr[ch[j]].dc]]
+     /\ Commit(OnCallAll(Cur, ch, draw))
+     /\ hist' = Append(hist, [op |-> "Resume", f |-> fr[id].f, id |-> id, v |-> NoneTok, catch |-> catch, draw |-> draw, ch |-> ch])
   /\ UNCHANGED truth
 
+\* extended alphabet: the running generator starts `yield from g` on a created generator (a coroutine: `await c`
+\* on a created coroutine); the delegate's first entry is a call event of its own
+Delegate(id, catch, draw) ==
+  /\ AllowDelegate /\ Running /\ fr[Top].st = "run" /\ Kind[fr[Top].f] \in {"gen", "coro"} /\ LiveChild(Top) = 0
+  /\ id \in 1..Len(fr) /\ fr[id].st = "new" /\ Kind[fr[id].f] = Kind[fr[Top].f]
+  /\ fr' = [fr EXCEPT ![id].st = "run", ![id].dc = catch, ![Top].dg = id]
+  /\ stack' = Append(stack, [id |-> id, catch |-> catch])
+  /\ Commit(OnCall(Cur, id, fr[id].f, fr[id].cur, TRUE, draw))
+  /\ hist' = Append(hist, [op |-> "Delegate", f |-> fr[id].f, id |-> id, v |-> NoneTok, catch |-> catch, draw |-> draw, ch |-> <<id>>])
+  /\ UNCHANGED truth
+
+\* the running generator yields v: every frame of the chain it ends is suspended and has yielded v
 Yield(v) ==
   /\ Running /\ fr[Top].st = "run" /\ Kind[fr[Top].f] = "gen"
-  /\ fr' = [fr EXCEPT ![Top].st = "susp", ![Top].ys = @ \cup {v}]
-  /\ stack' = SubSeq(stack, 1, Len(stack) - 1)
-  /\ Commit(OnReturn(Cur, Top, fr[Top].f, "YIELD_VALUE", v))
-  /\ hist' = Append(hist, [op |-> "Yield", f |-> fr[Top].f, id |-> Top, v |-> v, catch |-> TRUE, draw |-> 0])
+  /\ LET ch == TopChain IN
+     /\ fr' = [j \in 1..Len(fr) |-> IF j \in ToSet(ch) THEN [fr[j] EXCEPT !.st = "susp", !.ys = @ \cup {v}] ELSE fr[j]]
+     /\ stack' = SubSeq(stack, 1, Len(stack) - Len(ch))
+     /\ Commit(OnReturnAll(Cur, ch, "YIELD_VALUE", v))
+     /\ hist' = Append(hist, [op |-> "Yield", f |-> fr[Top].f, id |-> Top, v |-> v, catch |-> TRUE, draw |-> 0, ch |-> ch])
   /\ UNCHANGED truth
 
-\* a coroutine really suspends on an awaitable (which yields None to the driver); not a yield
+\* a coroutine really suspends on an awaitable (which yields None to the driver); not a yield.  Every coroutine
+\* of the await chain is suspended with it.
 AwaitSuspend ==
   /\ Running /\ fr[Top].st = "run" /\ Kind[fr[Top].f] = "coro"
-  /\ fr' = [fr EXCEPT ![Top].st = "susp"]
-  /\ stack' = SubSeq(stack, 1, Len(stack) - 1)
-  /\ Commit(IF Dev_AwaitIsYield THEN OnReturn(Cur, Top, fr[Top].f, "YIELD_VALUE", NoneTok) ELSE Cur)
-  /\ hist' = Append(hist, [op |-> "Await", f |-> fr[Top].f, id |-> Top, v |-> NoneTok, catch |-> TRUE, draw |-> 0])
+  /\ LET ch == TopChain IN
+     /\ fr' = [j \in 1..Len(fr) |-> IF j \in ToSet(ch) THEN [fr[j] EXCEPT !.st = "susp"] ELSE fr[j]]
+     /\ stack' = SubSeq(stack, 1, Len(stack) - Len(ch))
+     /\ Commit(IF Dev_AwaitIsYield THEN OnReturnAll(Cur, ch, "YIELD_VALUE", NoneTok) ELSE Cur)
+     /\ hist' = Append(hist, [op |-> "Await", f |-> fr[Top].f, id |-> Top, v |-> NoneTok, catch |-> TRUE, draw |-> 0, ch |-> ch])
   /\ UNCHANGED truth
 
 \* how \in {"expr", "const", "implicit"}: `return v` / `return <literal>` / falling off the end
@@ -152,7 +202,7 @@ Return(how, v) ==
   /\ stack' = SubSeq(stack, 1, Len(stack) - 1)
   /\ truth' = AddTruth(truth, Top, RetVal(how, v))
   /\ Commit(OnReturn(Cur, Top, fr[Top].f, IF how = "expr" THEN "RETURN_VALUE" ELSE "RETURN_CONST", RetVal(how, v)))
-  /\ hist' = Append(hist, [op |-> "Return", f |-> how, id |-> Top, v |-> RetVal(how, v), catch |-> TRUE, draw |-> 0])
+  /\ hist' = Append(hist, [op |-> "Return", f |-> how, id |-> Top, v |-> RetVal(how, v), catch |-> TRUE, draw |-> 0, ch |-> <<>>])
 
 \* the running frame raises; every frame up to the first catching caller unwinds (one return event each)
 RECURSIVE Unwind(_, _, _, _)
@@ -172,26 +222,26 @@ Raise ==
   /\ Running /\ fr[Top].st = "run"
   /\ LET r == Unwind(stack, fr, truth, Cur) IN
      /\ stack' = r.stack /\ fr' = r.fr /\ truth' = r.truth /\ Commit(r.ts)
-  /\ hist' = Append(hist, [op |-> "Raise", f |-> fr[Top].f, id |-> Top, v |-> NoneTok, catch |-> TRUE, draw |-> 0])
+  /\ hist' = Append(hist, [op |-> "Raise", f |-> fr[Top].f, id |-> Top, v |-> NoneTok, catch |-> TRUE, draw |-> 0, ch |-> <<>>])
 
 \* the body rebinds its parameter (only interesting for frames that will be resumed)
 Rebind(v) ==
   /\ Running /\ fr[Top].st = "run" /\ Kind[fr[Top].f] \in {"gen", "coro"} /\ fr[Top].cur # v
   /\ fr' = [fr EXCEPT ![Top].cur = v]
-  /\ hist' = Append(hist, [op |-> "Rebind", f |-> fr[Top].f, id |-> Top, v |-> v, catch |-> TRUE, draw |-> 0])
+  /\ hist' = Append(hist, [op |-> "Rebind", f |-> fr[Top].f, id |-> Top, v |-> v, catch |-> TRUE, draw |-> 0, ch |-> <<>>])
   /\ UNCHANGED <<stack, truth, traces, skipped, logged>>
 
 \* extended alphabet: g.throw(exc) into a suspended generator that does not handle it; the
 \* thrower catches.  The generator finishes by raising.
 Throw(id, draw) ==
-  /\ AllowThrow /\ CanAct /\ id \in 1..Len(fr) /\ fr[id].st = "susp" /\ Kind[fr[id].f] = "gen"
+  /\ AllowThrow /\ CanAct /\ id \in 1..Len(fr) /\ fr[id].st = "susp" /\ Kind[fr[id].f] = "gen" /\ ~InChain(id)
   /\ fr' = [fr EXCEPT ![id].st = "done"]
   /\ truth' = AddTruth(truth, id, ABSENT)
   /\ LET s1 == OnCall(Cur, id, fr[id].f, fr[id].cur, FALSE, draw)
          s2 == IF Dev_ThrowIsYield THEN OnReturn(s1, id, fr[id].f, "YIELD_VALUE", NoneTok)
                ELSE OnReturn(s1, id, fr[id].f, "OTHER", NoneTok)
      IN Commit(s2)
-  /\ hist' = Append(hist, [op |-> "Throw", f |-> fr[id].f, id |-> id, v |-> NoneTok, catch |-> TRUE, draw |-> draw])
+  /\ hist' = Append(hist, [op |-> "Throw", f |-> fr[id].f, id |-> id, v |-> NoneTok, catch |-> TRUE, draw |-> draw, ch |-> <<id>>])
   /\ UNCHANGED stack
 
 \* extended alphabet: the program drops its last reference to a suspended generator; close() throws
@@ -199,19 +249,20 @@ Throw(id, draw) ==
 \* call "finished": it carries NO verdict (neither truth nor the invariants mention it) - but every other
 \* call must still be traced faithfully afterwards.
 Drop(id, draw) ==
-  /\ AllowDrop /\ CanAct /\ id \in 1..Len(fr) /\ fr[id].st = "susp" /\ Kind[fr[id].f] = "gen"
+  /\ AllowDrop /\ CanAct /\ id \in 1..Len(fr) /\ fr[id].st = "susp" /\ Kind[fr[id].f] = "gen" /\ ~InChain(id)
   /\ fr' = [fr EXCEPT ![id].st = "dropped"]
   /\ LET s1 == OnCall(Cur, id, fr[id].f, fr[id].cur, FALSE, draw)
          s2 == IF Dev_ThrowIsYield THEN OnReturn(s1, id, fr[id].f, "YIELD_VALUE", NoneTok)
                ELSE OnReturn(s1, id, fr[id].f, "OTHER", NoneTok)
      IN Commit(s2)
-  /\ hist' = Append(hist, [op |-> "Drop", f |-> fr[id].f, id |-> id, v |-> NoneTok, catch |-> TRUE, draw |-> draw])
+  /\ hist' = Append(hist, [op |-> "Drop", f |-> fr[id].f, id |-> id, v |-> NoneTok, catch |-> TRUE, draw |-> draw, ch |-> <<id>>])
   /\ UNCHANGED <<stack, truth>>
 
 Next ==
   \/ \E id \in 1..Len(fr), d \in Draws : Drop(id, d)
   \/ \E f \in Funcs, v \in Vals, c \in BOOLEAN, d \in Draws : Call(f, v, c, d)
   \/ \E id \in 1..Len(fr), c \in BOOLEAN, d \in Draws : Resume(id, c, d)
+  \/ \E id \in 1..Len(fr), c \in BOOLEAN, d \in Draws : Delegate(id, c, d)
   \/ \E v \in Vals : Yield(v)
   \/ AwaitSuspend
   \/ \E how \in {"expr", "const", "implicit"}, v \in Vals : Return(how, v)
